@@ -1,6 +1,472 @@
-(* C14 — stub: model not yet built (the property is listed under not_applicable until it is). *)
-From Coq Require Import List ZArith Bool.
+(* C14 — model of the SugaredLogger front end (sugar.go), following the Go text:
+
+     sweetenFields   the positional sweep over args (index i, args[i+1] behind the
+                     dangling test), the three diagnostics (s.base.Error calls)
+     getMessage / getMessageln
+     log / logln     level pre-check, Logger.Check, ce.Write(sweetenFields(context)...)
+     With / WithLazy s.base.With(s.sweetenFields(args)...)
+
+   Go values are an abstract type [V]; zapcore.Field is an abstract type [F].  The
+   type assertions of the sweep and the field constructors it calls are parameters
+   of the section (as_field = args[i].(Field), is_error = args[i].(error),
+   as_string = key.(string), any_fld = zap.Any, named_error = zap.NamedError,
+   array_invalid = Array("invalid", invalidPairs)).  fmt.Sprint/Sprintf/Sprintln are
+   oracles: their answers travel with the call.
+
+   The specification (second half) is written independently of the sweep: a
+   structural parse of the argument list into items, each covering one or two
+   positions.  No proofs in this file. *)
+From Coq.Strings Require Import String.
+From Coq Require Import List ZArith Bool Lia.
+From Coq.Strings Require Import Byte.
 Import ListNotations.
 From Zap Require Import Base.Wire.
-Definition model (i : sx) : sx := SL [].
-Definition spec (i o : sx) : bool := false.
+
+Definition bs (s : String.string) : bytes := String.list_byte_of_string s.
+Definition is_nil {A} (l : list A) : bool := match l with [] => true | _ => false end.
+
+(* sugar.go constants *)
+Definition oddNumberErrMsg : bytes := Eval vm_compute in bs "Ignored key without a value."%string.
+Definition nonStringKeyErrMsg : bytes := Eval vm_compute in bs "Ignored key-value pairs with non-string keys."%string.
+Definition multipleErrMsg : bytes := Eval vm_compute in bs "Multiple errors without a key."%string.
+Definition key_error : bytes := Eval vm_compute in bs "error"%string.       (* error.go: Error(err) = NamedError("error", err) *)
+Definition key_ignored : bytes := Eval vm_compute in bs "ignored"%string.
+
+(* zapcore levels *)
+Definition DebugLevel : Z := (-1)%Z.
+Definition InfoLevel : Z := 0%Z.
+Definition WarnLevel : Z := 1%Z.
+Definition ErrorLevel : Z := 2%Z.
+Definition DPanicLevel : Z := 3%Z.
+Definition PanicLevel : Z := 4%Z.
+Definition FatalLevel : Z := 5%Z.
+
+(* result of a Go loop that indexes a slice: it finishes, or an index is out of
+   range (a run-time panic), or the model's fuel ran out (never: C14_total) *)
+Inductive outcome (A : Type) :=
+| Done (a : A)
+| OutOfRange (a : A)      (* state reached when the bad index was evaluated *)
+| OutOfFuel.
+Arguments Done {A} a.
+Arguments OutOfRange {A} a.
+Arguments OutOfFuel {A}.
+
+Inductive term := TNone | TPanic | TFatal | TCrash.
+Definition term_is_none (t : term) : bool := match t with TNone => true | _ => false end.
+
+Section Sugar.
+  Variables V F : Type.
+  Variable as_field : V -> option F.            (* f, ok := args[i].(Field) *)
+  Variable is_error : V -> bool.                (* err, ok := args[i].(error) *)
+  Variable as_string : V -> option bytes.       (* keyStr, ok := key.(string) *)
+  Variable any_fld : bytes -> V -> F.           (* Any(key, value) *)
+  Variable named_error : bytes -> V -> F.       (* NamedError(key, err) *)
+  Variable array_invalid : list (nat * V * V) -> F.   (* Array("invalid", invalidPairs{{position,key,value}...}) *)
+
+  Definition error_fld (e : V) : F := named_error key_error e.   (* Error(err) *)
+
+  (* ---------------- sweetenFields: the sweep ---------------- *)
+  (* a call s.base.Error(msg, fields...) made by the sweep *)
+  Definition bcall := (bytes * list F)%type.
+
+  Record sw := {
+    sw_fields : list F;                 (* fields  = make([]Field, 0, len(args)) *)
+    sw_invalid : list (nat * V * V);    (* invalid invalidPairs *)
+    sw_seen : bool;                     (* seenError *)
+    sw_calls : list bcall               (* s.base.Error calls made so far, in order *)
+  }.
+  Definition sw_init : sw := {| sw_fields := []; sw_invalid := []; sw_seen := false; sw_calls := [] |}.
+  Definition push_field (f : F) (s : sw) : sw :=
+    {| sw_fields := sw_fields s ++ [f]; sw_invalid := sw_invalid s; sw_seen := sw_seen s; sw_calls := sw_calls s |}.
+  Definition push_invalid (p : nat * V * V) (s : sw) : sw :=
+    {| sw_fields := sw_fields s; sw_invalid := sw_invalid s ++ [p]; sw_seen := sw_seen s; sw_calls := sw_calls s |}.
+  Definition set_seen (s : sw) : sw :=
+    {| sw_fields := sw_fields s; sw_invalid := sw_invalid s; sw_seen := true; sw_calls := sw_calls s |}.
+  Definition push_call (c : bcall) (s : sw) : sw :=
+    {| sw_fields := sw_fields s; sw_invalid := sw_invalid s; sw_seen := sw_seen s; sw_calls := sw_calls s ++ [c] |}.
+
+  (* for i := 0; i < len(args); { ... }   -- one unit of fuel per evaluation of the loop condition *)
+  Fixpoint sweep (fuel : nat) (args : list V) (i : nat) (s : sw) : outcome sw :=
+    match fuel with
+    | 0 => OutOfFuel
+    | S fuel' =>
+        if negb (i <? length args) then Done s else
+        match nth_error args i with
+        | None => OutOfRange s
+        | Some a =>
+            match as_field a with
+            | Some f => sweep fuel' args (i + 1) (push_field f s)          (* i++; continue *)
+            | None =>
+                if is_error a then
+                  if negb (sw_seen s)
+                  then sweep fuel' args (i + 1) (push_field (error_fld a) (set_seen s))
+                  else sweep fuel' args (i + 1) (push_call (multipleErrMsg, [error_fld a]) s)
+                else if i =? length args - 1 then                               (* dangling key: break *)
+                  Done (push_call (oddNumberErrMsg, [any_fld key_ignored a]) s)
+                else
+                  match nth_error args (i + 1) with                             (* key, val := args[i], args[i+1] *)
+                  | None => OutOfRange s
+                  | Some val =>
+                      match as_string a with
+                      | None => sweep fuel' args (i + 2) (push_invalid (i, a, val) s)
+                      | Some k => sweep fuel' args (i + 2) (push_field (any_fld k val) s)
+                      end
+                  end
+            end
+        end
+    end.
+
+  (* after the loop: if len(invalid) > 0 { s.base.Error(_nonStringKeyErrMsg, Array("invalid", invalid)) } *)
+  Definition finish (s : sw) : list F * list bcall :=
+    (sw_fields s,
+     sw_calls s ++ (if 0 <? length (sw_invalid s) then [(nonStringKeyErrMsg, [array_invalid (sw_invalid s)])] else [])).
+
+  (* sweetenFields(args) = (returned fields, s.base.Error calls in order) *)
+  Definition sweeten (args : list V) : outcome (list F * list bcall) :=
+    if length args =? 0 then Done ([], []) else
+    match sweep (S (length args)) args 0 sw_init with
+    | Done s => Done (finish s)
+    | OutOfRange s => OutOfRange ([], sw_calls s)
+    | OutOfFuel => OutOfFuel
+    end.
+
+  (* ---------------- the logger under the sugar ---------------- *)
+  Record logger := {
+    lg_ctx : list F;          (* fields accumulated in the core by With *)
+    lg_en : Z -> bool;        (* core.Enabled *)
+    lg_dev : bool             (* Development() *)
+  }.
+  Record entry := { en_lvl : Z; en_msg : bytes; en_fields : list F }.
+
+  (* Logger.Error(msg, fields...): check(ErrorLevel) is nil when the level is disabled,
+     otherwise the core adds itself and Write delivers context ++ fields *)
+  Definition base_error (lg : logger) (c : bcall) : list entry :=
+    if (ErrorLevel <? DPanicLevel)%Z && negb (lg_en lg ErrorLevel) then []
+    else if lg_en lg ErrorLevel
+         then [{| en_lvl := ErrorLevel; en_msg := fst c; en_fields := lg_ctx lg ++ snd c |}]
+         else [].
+  Definition diag_entries (lg : logger) (cs : list bcall) : list entry := concat (map (base_error lg) cs).
+
+  (* Logger.check: the terminal action attached by the level switch *)
+  Definition terminal (lg : logger) (lvl : Z) : term :=
+    if (lvl =? PanicLevel)%Z then TPanic
+    else if (lvl =? FatalLevel)%Z then TFatal
+    else if (lvl =? DPanicLevel)%Z then (if lg_dev lg then TPanic else TNone)
+    else TNone.
+
+  (* if ce := s.base.Check(lvl, msg); ce != nil { ce.Write(s.sweetenFields(context)...) } *)
+  Definition check_write (lg : logger) (lvl : Z) (msg : bytes) (context : list V) : list entry * term :=
+    if (lvl <? DPanicLevel)%Z && negb (lg_en lg lvl) then ([], TNone) else
+    let will_write := lg_en lg lvl in
+    let tm := terminal lg lvl in
+    if will_write || negb (term_is_none tm) then
+      match sweeten context with
+      | Done (fields, calls) =>
+          (diag_entries lg calls ++
+           (if will_write then [{| en_lvl := lvl; en_msg := msg; en_fields := lg_ctx lg ++ fields |}] else []),
+           tm)
+      | OutOfRange (_, calls) => (diag_entries lg calls, TCrash)
+      | OutOfFuel => ([], TCrash)
+      end
+    else ([], TNone).
+
+  (* getMessage(template, fmtArgs) over the oracle answers of fmt.Sprintf / fmt.Sprint *)
+  Definition get_message (template : bytes) (fmt_args : list V) (sprintf sprint : bytes) : bytes :=
+    if length fmt_args =? 0 then template
+    else if negb (is_nil template) then sprintf
+    else match fmt_args with
+         | [a] => match as_string a with Some s => s | None => sprint end
+         | _ => sprint
+         end.
+  (* getMessageln: msg := fmt.Sprintln(fmtArgs...); return msg[:len(msg)-1]  (panics on an empty msg) *)
+  Definition get_messageln (sprintln : bytes) : option bytes :=
+    if is_nil sprintln then None else Some (removelast sprintln).
+
+  (* SugaredLogger.log *)
+  Definition slog (lg : logger) (lvl : Z) (template : bytes) (fmt_args : list V)
+             (sprintf sprint : bytes) (context : list V) : list entry * term :=
+    if (lvl <? DPanicLevel)%Z && negb (lg_en lg lvl) then ([], TNone) else
+    check_write lg lvl (get_message template fmt_args sprintf sprint) context.
+  (* SugaredLogger.logln *)
+  Definition slogln (lg : logger) (lvl : Z) (sprintln : bytes) (context : list V) : list entry * term :=
+    if (lvl <? DPanicLevel)%Z && negb (lg_en lg lvl) then ([], TNone) else
+    match get_messageln sprintln with
+    | None => ([], TCrash)
+    | Some msg => check_write lg lvl msg context
+    end.
+
+  (* With / WithLazy: &SugaredLogger{base: s.base.With(s.sweetenFields(args)...)}; the
+     diagnostics are logged through the receiver (old context); the lazy variant adds the
+     same fields to the core on first use, which the observer cannot tell apart *)
+  Definition swith (lg : logger) (args : list V) : outcome (logger * list entry) :=
+    match sweeten args with
+    | Done (fields, calls) =>
+        Done ({| lg_ctx := lg_ctx lg ++ fields; lg_en := lg_en lg; lg_dev := lg_dev lg |}, diag_entries lg calls)
+    | OutOfRange (_, calls) => OutOfRange (lg, diag_entries lg calls)
+    | OutOfFuel => OutOfFuel
+    end.
+
+  (* the four method families *)
+  Inductive family := FamW | FamPrint | FamF | FamLn.
+  Record call := {
+    c_fam : family;
+    c_lvl : Z;
+    c_text : bytes;            (* msg (w) / template (f) / unused *)
+    c_args : list V;           (* keysAndValues (w) / args (print, f, ln) *)
+    c_sprint : bytes;          (* fmt.Sprint(args...) *)
+    c_sprintf : bytes;         (* fmt.Sprintf(template, args...) *)
+    c_sprintln : bytes         (* fmt.Sprintln(args...) *)
+  }.
+  Definition do_call (lg : logger) (c : call) : list entry * term :=
+    match c_fam c with
+    | FamW => slog lg (c_lvl c) (c_text c) [] (c_sprintf c) (c_sprint c) (c_args c)      (* s.log(lvl, msg, nil, keysAndValues) *)
+    | FamPrint => slog lg (c_lvl c) [] (c_args c) (c_sprintf c) (c_sprint c) []          (* s.log(lvl, "", args, nil) *)
+    | FamF => slog lg (c_lvl c) (c_text c) (c_args c) (c_sprintf c) (c_sprint c) []      (* s.log(lvl, template, args, nil) *)
+    | FamLn => slogln lg (c_lvl c) (c_sprintln c) []                                     (* s.logln(lvl, args, nil) *)
+    end.
+
+  (* a program: a chain of With/WithLazy calls, then one logging call *)
+  Fixpoint run (lg : logger) (withs : list (list V)) (c : call) : list entry * term :=
+    match withs with
+    | [] => do_call lg c
+    | a :: r =>
+        match swith lg a with
+        | Done (lg', es) => let '(es', t) := run lg' r c in (es ++ es', t)
+        | OutOfRange (_, es) => (es, TCrash)
+        | OutOfFuel => ([], TCrash)
+        end
+    end.
+
+  (* ================= specification (independent of the sweep) ================= *)
+  (* structural parse of the argument list: what each position is used for *)
+  Inductive item :=
+  | IField (pos : nat) (f : F)               (* a typed field at pos *)
+  | IFirstErr (pos : nat) (e : V)            (* the first bare error *)
+  | IExtraErr (pos : nat) (e : V)            (* a further bare error *)
+  | IPair (pos : nat) (k : bytes) (v : V)    (* string key at pos, value at pos+1 *)
+  | IBadPair (pos : nat) (k v : V)           (* non-string key at pos, value at pos+1 *)
+  | IDangling (pos : nat) (k : V).           (* last element, no value *)
+
+  Fixpoint items (pos : nat) (seen : bool) (l : list V) : list item :=
+    match l with
+    | [] => []
+    | a :: r =>
+        match as_field a with
+        | Some f => IField pos f :: items (S pos) seen r
+        | None =>
+            if is_error a then (if seen then IExtraErr pos a else IFirstErr pos a) :: items (S pos) true r
+            else match r with
+                 | [] => [IDangling pos a]
+                 | b :: r' =>
+                     (match as_string a with Some k => IPair pos k b | None => IBadPair pos a b end)
+                     :: items (S (S pos)) seen r'
+                 end
+        end
+    end.
+
+  (* the positions an item accounts for *)
+  Definition span (it : item) : list nat :=
+    match it with
+    | IField p _ | IFirstErr p _ | IExtraErr p _ | IDangling p _ => [p]
+    | IPair p _ _ | IBadPair p _ _ => [p; S p]
+    end.
+  Definition start (it : item) : nat :=
+    match it with
+    | IField p _ | IFirstErr p _ | IExtraErr p _ | IDangling p _ | IPair p _ _ | IBadPair p _ _ => p
+    end.
+  (* consumed: the field an item contributes to the output *)
+  Definition out_field (it : item) : option F :=
+    match it with
+    | IField _ f => Some f
+    | IFirstErr _ e => Some (error_fld e)
+    | IPair _ k v => Some (any_fld k v)
+    | _ => None
+    end.
+  (* reported: the items that must show up in a diagnostic *)
+  Definition reported (it : item) : bool :=
+    match it with IExtraErr _ _ | IBadPair _ _ _ | IDangling _ _ => true | _ => false end.
+
+  Fixpoint filter_map {A B} (f : A -> option B) (l : list A) : list B :=
+    match l with
+    | [] => []
+    | a :: r => match f a with Some b => b :: filter_map f r | None => filter_map f r end
+    end.
+
+  Definition fields_of (its : list item) : list F := filter_map out_field its.
+  Definition extra_errs (its : list item) : list V :=
+    filter_map (fun it => match it with IExtraErr _ e => Some e | _ => None end) its.
+  Definition danglings (its : list item) : list V :=
+    filter_map (fun it => match it with IDangling _ k => Some k | _ => None end) its.
+  Definition bad_pairs (its : list item) : list (nat * V * V) :=
+    filter_map (fun it => match it with IBadPair p k v => Some (p, k, v) | _ => None end) its.
+
+  (* the diagnostics the property asks for: one entry per further bare error, one for a
+     dangling key (its value under "ignored"), one listing every non-string-keyed pair *)
+  Definition diag_calls_of (its : list item) : list bcall :=
+    map (fun e => (multipleErrMsg, [error_fld e])) (extra_errs its)
+    ++ map (fun k => (oddNumberErrMsg, [any_fld key_ignored k])) (danglings its)
+    ++ (match bad_pairs its with [] => [] | ps => [(nonStringKeyErrMsg, [array_invalid ps])] end).
+
+  Definition spec_sweeten (args : list V) : list F * list bcall :=
+    let its := items 0 false args in (fields_of its, diag_calls_of its).
+
+  (* error-level entries carrying the logger's context *)
+  Definition spec_diag_entries (lg : logger) (cs : list bcall) : list entry :=
+    if lg_en lg ErrorLevel
+    then map (fun c => {| en_lvl := ErrorLevel; en_msg := fst c; en_fields := lg_ctx lg ++ snd c |}) cs
+    else [].
+
+  (* With chain: context grows by the well-formed arguments, diagnostics carry the old context *)
+  Fixpoint spec_withs (lg : logger) (withs : list (list V)) : logger * list entry :=
+    match withs with
+    | [] => (lg, [])
+    | a :: r =>
+        let '(fs, cs) := spec_sweeten a in
+        let '(lg', es) := spec_withs {| lg_ctx := lg_ctx lg ++ fs; lg_en := lg_en lg; lg_dev := lg_dev lg |} r in
+        (lg', spec_diag_entries lg cs ++ es)
+    end.
+
+  (* the message the property prescribes; [None] = no message satisfies it *)
+  Definition msg_ok (c : call) (m : bytes) : bool :=
+    match c_fam c with
+    | FamW => bytes_eqb m (c_text c)
+    | FamPrint => bytes_eqb m (c_sprint c)
+    | FamF => if is_nil (c_args c) then bytes_eqb m (c_text c) else bytes_eqb m (c_sprintf c)
+    | FamLn => bytes_eqb (m ++ [x0a]) (c_sprintln c)
+    end.
+  Definition call_context (c : call) : list V := match c_fam c with FamW => c_args c | _ => [] end.
+
+End Sugar.
+
+Arguments Done {A} a.
+Arguments IField {V F}. Arguments IFirstErr {V F}. Arguments IExtraErr {V F}.
+Arguments IPair {V F}. Arguments IBadPair {V F}. Arguments IDangling {V F}.
+Arguments span {V F}. Arguments start {V F}. Arguments reported {V F}.
+Arguments sw_fields {V F}. Arguments sw_invalid {V F}. Arguments sw_seen {V F}. Arguments sw_calls {V F}.
+Arguments sw_init {V F}.
+Arguments lg_ctx {F}. Arguments lg_en {F}. Arguments lg_dev {F}.
+Arguments Build_logger {F}.
+Arguments en_lvl {F}. Arguments en_msg {F}. Arguments en_fields {F}.
+Arguments Build_entry {F}.
+Arguments c_fam {V}. Arguments c_lvl {V}. Arguments c_text {V}. Arguments c_args {V}.
+Arguments c_sprint {V}. Arguments c_sprintf {V}. Arguments c_sprintln {V}.
+Arguments Build_call {V}.
+Arguments call_context {V}.
+Arguments spec_diag_entries {F}.
+Arguments base_error {F}. Arguments diag_entries {F}. Arguments terminal {F}.
+
+(* ================= wire instance ================= *)
+(* V = F = sx.
+   value  v = (kind fdesc str anykl errkl enck encv typ rend)
+     kind   0 zap.Field | 1 implements error | 2 string | 3 anything else (nil included); computed by the
+            harness with the same type assertions, in the same order, as sweetenFields
+     fdesc  kind 0: the Field itself (key type integer string iface)
+     str    kind 2: the string
+     anykl  zap.Any("", v) without its key: (type integer string iface)         [oracle: direct call]
+     errkl  kind 1: zap.NamedError("", v) without its key                       [oracle: direct call]
+     enck   the encoder calls made by zap.Any("key", v).AddTo(enc)              [oracle: direct call]
+     encv   the encoder calls made by zap.Any("value", v).AddTo(enc)            [oracle: direct call]
+     typ rend  %T and an address-free rendering (information for replays only)
+   field  f = (key type integer string iface);  iface = (typ rend)
+   case   i = ((en-1 en0 en1 en2 en3 en4 en5) dev ((lazy (v ...)) ...) (fam lvl text (v ...) sprint sprintf sprintln generic))
+   obs    o = (term ((lvl msg (f ...)) ...))     term 0 none | 1 panic | 2 fatal hook | 3 other run-time panic *)
+Definition ArrayMarshalerType : Z := 1%Z.
+Definition s_Int64 : bytes := Eval vm_compute in bs "Int64"%string.
+Definition s_position : bytes := Eval vm_compute in bs "position"%string.
+Definition s_invalid : bytes := Eval vm_compute in bs "invalid"%string.
+Definition s_invalidPairs : bytes := Eval vm_compute in bs "zap.invalidPairs"%string.
+
+Definition w_kind (v : sx) : Z := sx_z (sx_nth v 0).
+Definition w_as_field (v : sx) : option sx := if (w_kind v =? 0)%Z then Some (sx_nth v 1) else None.
+Definition w_is_error (v : sx) : bool := (w_kind v =? 1)%Z.
+Definition w_as_string (v : sx) : option bytes := if (w_kind v =? 2)%Z then Some (sx_b (sx_nth v 2)) else None.
+Definition with_key (k : bytes) (kl : sx) : sx := SL (SB k :: sx_l kl).
+Definition w_any (k : bytes) (v : sx) : sx := with_key k (sx_nth v 3).
+Definition w_named_error (k : bytes) (v : sx) : sx := with_key k (sx_nth v 4).
+(* invalidPairs.MarshalLogArray: one AppendObject per pair; invalidPair.MarshalLogObject:
+   enc.AddInt64("position", ...); Any("key", p.key).AddTo(enc); Any("value", p.value).AddTo(enc) *)
+Definition w_pair_obj (p : nat * sx * sx) : sx :=
+  let '(i, k, v) := p in
+  SL (SL [SB s_Int64; SB s_position; of_nat i] :: sx_l (sx_nth k 5) ++ sx_l (sx_nth v 6)).
+Definition w_array_invalid (ps : list (nat * sx * sx)) : sx :=
+  SL [SB s_invalid; SZ ArrayMarshalerType; SZ 0; SB [];
+      SL [SB s_invalidPairs; SL (map w_pair_obj ps)]].
+
+Definition w_sweeten := sweeten sx sx w_as_field w_is_error w_as_string w_any w_named_error w_array_invalid.
+Definition w_run := run sx sx w_as_field w_is_error w_as_string w_any w_named_error w_array_invalid.
+Definition w_spec_sweeten := spec_sweeten sx sx w_as_field w_is_error w_as_string w_any w_named_error w_array_invalid.
+Definition w_spec_withs := spec_withs sx sx w_as_field w_is_error w_as_string w_any w_named_error w_array_invalid.
+
+Definition dec_en (s : sx) (l : Z) : bool :=
+  if ((-1 <=? l) && (l <=? 5))%Z then sx_bool (sx_nth s (Z.to_nat (l + 1))) else false.
+Definition dec_logger (i : sx) : logger sx :=
+  {| lg_ctx := []; lg_en := dec_en (sx_nth i 0); lg_dev := sx_bool (sx_nth i 1) |}.
+Definition dec_withs (i : sx) : list (list sx) := map (fun w => sx_l (sx_nth w 1)) (sx_l (sx_nth i 2)).
+Definition dec_fam (z : Z) : family :=
+  match z with 0%Z => FamW | 1%Z => FamPrint | 2%Z => FamF | _ => FamLn end.
+Definition dec_call (i : sx) : call sx :=
+  let c := sx_nth i 3 in
+  {| c_fam := dec_fam (sx_z (sx_nth c 0)); c_lvl := sx_z (sx_nth c 1); c_text := sx_b (sx_nth c 2);
+     c_args := sx_l (sx_nth c 3); c_sprint := sx_b (sx_nth c 4); c_sprintf := sx_b (sx_nth c 5);
+     c_sprintln := sx_b (sx_nth c 6) |}.
+
+Definition enc_term (t : term) : sx :=
+  SZ (match t with TNone => 0 | TPanic => 1 | TFatal => 2 | TCrash => 3 end)%Z.
+Definition enc_entry (e : entry sx) : sx := SL [SZ (en_lvl e); SB (en_msg e); SL (en_fields e)].
+Definition enc_entries (es : list (entry sx)) : sx := SL (map enc_entry es).
+
+Definition model (i : sx) : sx :=
+  let '(es, t) := w_run (dec_logger i) (dec_withs i) (dec_call i) in
+  SL [enc_term t; enc_entries es].
+
+(* ---- the property's oracle on an arbitrary observation ----
+   no run-time panic; the entries are: the diagnostics of every With (error level, context
+   of the receiver), then -- when the call's level is enabled -- the diagnostics of the call
+   followed by ONE entry at the call's level whose message satisfies [msg_ok] and whose fields
+   are the context plus the well-formed arguments in order.  When the call's level is disabled
+   no entry at that level may appear (its diagnostics may or may not). *)
+Definition spec (i o : sx) : bool :=
+  let lg := dec_logger i in
+  let c := dec_call i in
+  let '(lg', wes) := w_spec_withs lg (dec_withs i) in
+  let '(fs, cs) := w_spec_sweeten (call_context c) in
+  let des := spec_diag_entries lg' cs in
+  let t := sx_z (sx_nth o 0) in
+  let obs := sx_l (sx_nth o 1) in
+  let pre := map enc_entry (wes ++ des) in
+  ((0 <=? t) && (t <=? 2))%Z &&
+  (if lg_en lg (c_lvl c) then
+     match rev obs with
+     | last :: rpre =>
+         sx_eqb (SL (rev rpre)) (SL pre) &&
+         sx_eqb (sx_nth last 0) (SZ (c_lvl c)) &&
+         msg_ok sx c (sx_b (sx_nth last 1)) &&
+         (match sx_nth last 1 with SB _ => true | _ => false end) &&
+         sx_eqb (sx_nth last 2) (SL (lg_ctx lg' ++ fs)) &&
+         (length (sx_l last) =? 3)
+     | [] => false
+     end
+   else sx_eqb (SL obs) (SL (map enc_entry wes)) || sx_eqb (SL obs) (SL pre)) &&
+  (match sx_nth o 1 with SL _ => true | _ => false end) &&
+  (length (sx_l o) =? 2).
+
+(* ---- hypotheses of the wire theorem ----
+   fmt facts used by getMessage's shortcuts (assumption monitors in the harness):
+     Sprint() = "", Sprint(s) = s for a single string, Sprintln(...) ends in "\n";
+   and the one known deviation: the f-family with an empty template and arguments. *)
+Definition fmt_wf (i : sx) : bool :=
+  let c := dec_call i in
+  match c_fam c with
+  | FamPrint =>
+      match c_args c with
+      | [] => is_nil (c_sprint c)
+      | [a] => match w_as_string a with Some s => bytes_eqb (c_sprint c) s | None => true end
+      | _ => true
+      end
+  | FamLn => bytes_eqb (removelast (c_sprintln c) ++ [x0a]) (c_sprintln c)
+  | _ => true
+  end.
+Definition kf_empty_template (i : sx) : bool :=
+  let c := dec_call i in
+  match c_fam c with FamF => is_nil (c_text c) && negb (is_nil (c_args c)) | _ => false end.
+Definition wf (i : sx) : bool := fmt_wf i && negb (kf_empty_template i).
